@@ -22,6 +22,15 @@ import sys
 import threading
 import traceback
 
+
+def _cover_dump():
+    try:
+        from . import harness
+
+        harness.cover_dump()
+    except Exception:  # noqa
+        pass
+
 REAL_OPEN = builtins.open
 
 # ----------------------------------------------------------------------------- global mode
@@ -294,11 +303,11 @@ class Controller:
                 return self.req.get(timeout=60)
             except queue.Empty:
                 raise Stuck("a task did not reach its next scheduling point within 60 s")
-        import select
+        from .harness import wait_readable
 
         line = b""
         while not line.endswith(b"\n"):
-            rl, _, _ = select.select([self.req_r], [], [], 60)
+            rl = wait_readable([self.req_r], 60)
             if not rl:
                 raise Stuck("a task process did not reach its next scheduling point within 60 s")
             c = os.read(self.req_r, 1)
@@ -353,6 +362,7 @@ class Controller:
                     except BaseException:  # noqa
                         code = 3
                     finally:
+                        _cover_dump()
                         os._exit(code)
                 pids[t] = pid
         try:
